@@ -52,7 +52,7 @@ def plan(pid, tier):
     kinds = F.RECORD_KINDS + ["AddColumn", "ModifyType", "Summary"]
   INV_FIX = {"C09": (("views", "med"), ("summary", "small"), ("twoway", "small")),
              "C10": (("twoway", "med"), ("basic", "med"), ("views", "small"), ("summary", "small")),
-             "C11": (("twoway", "full"),),
+             "C11": (("twoway", "full-nf"),),
              "C12": (("summary", "med"), ("basic", "small"))}
   if pid in INV_FIX:
     fx0 = INV_FIX[pid][0][0]
@@ -63,7 +63,7 @@ def plan(pid, tier):
       pairs = []
       for k in kinds:
         for k2 in kinds:
-          pairs.append((fx0, "seq", k + "+" + k2, 2, "micro", "micro", want, 0, 30.0, None))
+          pairs.append((fx0, "seq", k + "+" + k2, 2, "micro-nf" if pid == "C11" else "micro", "micro-nf" if pid == "C11" else "micro", want, 0, 15.0, None))
       return pairs + shards
     for fx, _ in INV_FIX[pid] + (("basic", "x"), ("types", "x")):
       for k in kinds:
@@ -103,7 +103,7 @@ def _kinds(bundles):
 def signature(pid, fixture, v):
   msg = re.sub(r"0x[0-9a-f]+", "0x", v["msg"])
   return {"pid": pid, "fixture": fixture, "kinds": _kinds(v["bundles"]),
-          "kinds_str": " ".join(ua[0] + (":" + ua[1] if ua[1].startswith("_grist_") else "") for b in v["bundles"] for ua in b),
+          "kinds_str": " ".join(ua[0] + (":" + ua[1] if str(ua[1]).startswith("_grist_") else "") for b in v["bundles"] for ua in b),
           "msg_class": re.sub(r"[\d.]+", "#", msg)[:80], "msg": msg[:300], "bundles": json.dumps(v["bundles"], default=repr)}
 
 
@@ -163,6 +163,10 @@ def run(pid, tier, seed):
           cand[key] = {"sig": sig, "msg": v["msg"],
                        "witness": {"fixture": r["shard"]["fixture"], "prefix": r["shard"]["prefix"],
                                    "bundles": v["bundles"], "oracle": pid}}
+  if os.environ.get("VERIF_DUMP"):
+    with open(os.environ["VERIF_DUMP"], "w") as f:
+      for key, v in cand.items():
+        f.write(json.dumps({"key": key, "msg": v["msg"], "w": v["witness"]}, default=repr) + "\n")
   # replay before reporting
   confirmed = []
   for key, v in list(cand.items())[:40]:
@@ -194,7 +198,7 @@ def run(pid, tier, seed):
     "functions_executed": common.code_ref(*FILES[pid]),
     "bounds": {"tier": tier, "fixtures": sorted({a[0] for a in args}), "actions_per_history": sorted({a[3] for a in args}),
                "shard_shapes": sorted({"%s/%s/%d actions/pools %s+%s/prefix %d" % (a[0], a[1], a[3], a[4], a[5], a[7]) for a in args}),
-               "pools": {k: getattr(F.Pools, k.upper()) for k in sorted({a[4] for a in args} | {a[5] for a in args})},
+               "pools": {k: getattr(F.Pools, k.split("-")[0].upper()) for k in sorted({a[4] for a in args} | {a[5] for a in args})},
                "kinds": sorted({a[2] for a in args}),
                "outside": "documents larger than the fixtures (<= 3 user tables, <= 4 rows), bundles longer than "
                           "the stated number of actions, payloads/names/types/formulas outside the pools, schema "
